@@ -56,7 +56,7 @@ def handle (toks : List String) : String :=
         else if e == "e0588" then .e0588 else if e == "e0793" then .e0793 else if e == "emptyUnion" then .emptyUnion
         else if e == "layoutAssert" then .layoutAssert else if e == "layoutPanic" then .layoutPanic
         else if e == "missingDebug" then .missingDebug else if e == "e0133" then .e0133 else if e == "e0054" then .e0054 else if e == "unresolved" then .unresolved
-        else if e == "missingTrait" then .missingTrait else if e == "e0587" then .e0587 else if e == "e0223" then .e0223
+        else if e == "missingTrait" then .missingTrait else if e == "e0587" then .e0587 else if e == "e0223" then .e0223 else if e == "e0432" then .e0432
         else if e == "e0308" then .e0308 else if e == "e0392" then .e0392 else if e == "dupName" then .dupName else if e == "identPanic" then .identPanic else .other
       match C01Regions.classify opts facts err with
       | some x => x.name
